@@ -117,6 +117,10 @@ def parse_vc(path):
                 spec_kind[0] = key[1:]
                 spec_kind[1] = arg.strip()
                 continue
+            if key == "@const":
+                close_section()
+                specs.append(("const", arg.strip(), ""))
+                continue
             if key == "@type":
                 close_section()
                 if cur is not None:
@@ -423,6 +427,31 @@ def rw_sum(toks, log, loopvars):
         log.append(("R6 iter().map().sum() -> accumulating for loop", 1))
 
 
+def rw_contains(toks, log):
+    """R10: RECV.contains(|c| BODY) -> { let mut any_hit = false; let cn = RECV.unicode_len(); let mut ci = 0;
+             while ci < cn { let c = RECV.get_char(ci); if BODY { any_hit = true; } ci += 1; } any_hit }
+       (A5: str::contains(predicate) is true iff some char satisfies it)"""
+    while True:
+        i = find_seq(toks, [".", "contains", "(", "|"])
+        if i < 0:
+            return toks
+        s0 = expr_start_back(toks, i)
+        recv = toks[s0:i]
+        k = i + 4
+        k2 = k
+        while toks[k2] != "|":
+            k2 += 1
+        var = toks[k:k2]
+        close = match_close(toks, i + 2)
+        body = toks[k2 + 1:close]
+        rep = (["{", "let", "mut", "any_hit", "=", "false", ";", "let", "cn", "="] + recv + [".", "unicode_len", "(", ")", ";",
+               "let", "mut", "ci", ":", "usize", "=", "0", ";", "while", "ci", "<", "cn", "{", "let"] + var + ["="] + recv +
+               [".", "get_char", "(", "ci", ")", ";", "if"] + body + ["{", "any_hit", "=", "true", ";", "}", "ci", "+=", "1", ";", "}",
+               "any_hit", "}"])
+        toks = toks[:s0] + rep + toks[close + 1:]
+        log.append(("R10 str.contains(closure) -> char loop", 1))
+
+
 def loop_positions(body):
     """indices of loop keywords in token order; skips `for` inside generics (`for<'a>`) and `impl .. for`"""
     out = []
@@ -629,7 +658,7 @@ def short_id(path):
     return p
 
 
-def extract_fn(idx, c, rewrites):
+def extract_fn(idx, c, rewrites, sig_only=False):
     """returns (sig tokens incl. named return, body tokens with splices applied as text lines)"""
     if c.path not in idx:
         raise GenError("lost anchor: function %s not found in the expanded source" % c.path)
@@ -638,14 +667,16 @@ def extract_fn(idx, c, rewrites):
         raise GenError("lost anchor: %s is not a function with a body" % c.path)
     log = []
     sig = rw_common(list(it.header), log)
-    body = rw_common(list(it.body), log)
-    for pat, rep in c.subst:
+    body = rw_common(list(it.body), log) if not sig_only else []
+    for pat, rep in ([] if sig_only else c.subst):
         before = len(log)
         body = replace_all(body, pat, rep, log, "R5s @subst `%s` -> `%s`" % (norm(pat), norm(rep)))
         if len(log) == before:
             raise GenError("lost anchor: @subst pattern `%s` not found in %s" % (norm(pat), c.path))
-    body = rw_sum(body, log, None)
-    body = rw_for_index(body, log)
+    if not sig_only:
+        body = rw_sum(body, log, None)
+        body = rw_contains(body, log)
+        body = rw_for_index(body, log)
     sig, body = rw_mut_params(sig, body, log)
     sig = strip_quals(sig)
     sig, has_ret = named_return(sig, c.ret)
@@ -732,7 +763,7 @@ def splice_body(em, body, c, fnid):
 
 def emit_fn(em, idx, c, rewrites, verify=True, in_trait_impl=False):
     fnid = short_id(c.path)
-    sig, body, h = extract_fn(idx, c, rewrites)
+    sig, body, h = extract_fn(idx, c, rewrites, sig_only=(c.mode == "trusted") or not verify)
     if in_trait_impl:
         # trait impl methods carry no visibility
         if sig[0] == "pub":
@@ -818,9 +849,12 @@ global size_of usize == 8;
 """
 
 MOD_USES = """use vstd::prelude::*;
+use vstd::string::StringSliceAdditionalSpecFns;
 use std::slice;
 use std::io;
 use std::sync::Arc;
+use std::ops::Deref;
+use std::convert::TryFrom;
 """
 
 
@@ -862,6 +896,13 @@ def build_unit(idx, vc_verify, vc_trusted, spec_files, verif_root, only_fns=None
     em.add(MOD_USES)
     em.add(open(os.path.join(verif_root, "prelude", "base.rs")).read())
     for (f, (kind, arg, text)) in all_specs:
+        if kind == "const":
+            if arg not in idx or idx[arg].kind != "const":
+                raise GenError("lost anchor: const %s not found" % arg)
+            ct = rw_common(list(idx[arg].toks), [])
+            ct = ["pub"] + ct[ct.index("const"):]
+            em.add("// ---- const %s (extracted verbatim)" % arg)
+            em.add(join(ct))
         if kind == "type":
             toks, it = extract_type(idx, arg, rewrites)
             em.add("// ---- type %s (extracted; fields made pub, attributes dropped)" % arg)
@@ -889,8 +930,13 @@ def build_unit(idx, vc_verify, vc_trusted, spec_files, verif_root, only_fns=None
     # ---------------- code
     em.add("pub mod code {")
     em.add(MOD_USES + "use crate::base::*;")
-    for a in axnames:
-        em.add("broadcast use crate::ax::%s;" % a)
+    uses = ["crate::ax::%s" % a for a in axnames]
+    for (f, (kind, arg, text)) in all_specs:
+        if kind == "spec":
+            for g in re.findall(r"broadcast\s+group\s+([A-Za-z0-9_]+)", text):
+                uses.append("crate::base::%s" % g)
+    if uses:
+        em.add("broadcast use {%s};" % ", ".join(uses))
     for (f, (kind, arg, text)) in all_specs:
         if kind == "lemmas":
             em.add("// ---- @lemmas from %s" % f)
